@@ -28,7 +28,8 @@ def setup_engine(seed=0):
     import stone.ir.api as ir_api
     import stone.frontend.ast as st_ast
     import stone.frontend.exception as st_exc
-    for mod in (bv, bb, ss, ir_dt, ir_api, st_ast, st_exc):
+    import stone.cli_helpers as st_clih
+    for mod in (bv, bb, ss, ir_dt, ir_api, st_ast, st_exc, st_clih):
         for name in sorted(vars(mod)):
             obj = vars(mod)[name]
             if isinstance(obj, type) and obj.__module__ == mod.__name__:
@@ -152,6 +153,8 @@ class FunctionReport:
 
 
 def source_info(fn):
+    if getattr(fn, '__pyvc_ast__', None) is not None:
+        return (fn.__code__.co_filename, list(fn.__pyvc_lines__), fn.__pyvc_sha__)
     src = inspect.getsource(fn)
     lines, start = inspect.getsourcelines(fn)
     return (fn.__code__.co_filename, [start, start + len(lines) - 1],
@@ -442,6 +445,8 @@ class Verifier:
                 p.qdefs.extend(rec['qdefs'])
                 p.quants.extend(rec['quants'])
                 p.indices.extend(rec['indices'])
+                p.keyquants.extend(rec['keyquants'])
+                p.keylookups.extend(rec['keylookups'])
                 for k, v in rec['ghost'].items():
                     # per-path caches are copied, never shared between paths
                     p.ghost.setdefault(k, _copy_cache(v))
@@ -453,6 +458,7 @@ class Verifier:
                     raise I.PathAbort()
             else:
                 n_pc, n_qd, n_qu, n_ix = len(p.pc), len(p.qdefs), len(p.quants), len(p.indices)
+                n_kq, n_kl = len(p.keyquants), len(p.keylookups)
                 infeasible = False
                 req = con.__dict__.get('requires')
                 if req is not None:
@@ -472,6 +478,7 @@ class Verifier:
                     p.exp = eval_spec(E, exp_fn0, list(argsv.values()))
                 pre_cache[pkey] = {'pc': list(p.pc[n_pc:]), 'qdefs': list(p.qdefs[n_qd:]),
                                    'quants': list(p.quants[n_qu:]), 'indices': list(p.indices[n_ix:]),
+                                   'keyquants': list(p.keyquants[n_kq:]), 'keylookups': list(p.keylookups[n_kl:]),
                                    'ghost': dict((k, _copy_cache(v)) for k, v in p.ghost.items()
                                                  if not (isinstance(k, tuple) and k and k[0] in ('mustnot',))),
                                    'heap': dict(p.heap), 'fresh_n': p.fresh_n, 'exp': p.exp,
@@ -479,6 +486,8 @@ class Verifier:
                 if infeasible:
                     raise I.PathAbort()
             p.heap0 = dict(p.heap)
+            snap = con.__dict__.get('snapshot')
+            p.snap = eval_spec(E, snap, list(argsv.values())) if snap is not None else None
             pos = [argsv[n] for n in params if n in argsv]
             return E.inline(fn, pos, {}, owner)
 
@@ -503,7 +512,8 @@ class Verifier:
             if ens is not None:
                 res = v if kind == 'return' else I.C(None)
                 exc = I.C(v.cls if kind == 'raise' else None)
-                r = eval_spec(E, ens, list(argsv.values()) + [res, exc])
+                extra = [p.snap] if getattr(p, 'snap', None) is not None else []
+                r = eval_spec(E, ens, list(argsv.values()) + [res, exc] + extra)
                 goal = z3.And(goal, I._zb(E.truth(r)))
             desc = '%s %s' % (kind, v.cls.__name__ if kind == 'raise' else '')
             ob = self.prove(E, p, name + ':post', goal, 'post', rep, argsv, con)
@@ -706,7 +716,7 @@ def install_contracts(E, skip_target=None):
             continue
         E.contracts[fn] = ContractAdapter(con, fn)
         if con.opts.get('virtual'):
-            E.virtual[(owner, fn.__name__)] = fn
+            E.virtual[(tuple(con.opts['virtual_for']) if con.opts.get('virtual_for') else owner, fn.__name__)] = fn
 
 
 def verify_lemma(V, E, lem):
